@@ -69,7 +69,7 @@ func snapshotPhase1(res *scn.Result) {
 		if err == nil {
 			for i := 0; i < zzsim.NEvents; i++ {
 				e := zzsim.Events[i]
-				fmt.Fprintf(f, "%d %d %d %d %d\n", e[0], e[1], e[2], e[3], e[4])
+				fmt.Fprintf(f, "%d %d %d %d %d %d\n", e[0], e[1], e[2], e[3], e[4], e[5])
 			}
 			f.Close()
 		}
